@@ -44,6 +44,9 @@ def _items_for_codemod(arg):
         seen.setdefault(hashlib.sha1(r["input"].encode()).hexdigest()[:12], (("module", "plain", "lf"), r["input"].encode()))
         dec = gen.local_decoy(r["input"], gen.added_imports(r["input"], r["expected"]))
         if dec is not None: seen.setdefault(hashlib.sha1(dec.encode()).hexdigest()[:12], (("local-decoy-import", "plain", "lf"), dec.encode()))
+    for r in pick:
+        dup = gen.local_duplicate_import(r["input"])
+        if dup is not None: seen.setdefault(hashlib.sha1(dup.encode()).hexdigest()[:12], (("local-duplicate-import", "plain", "lf"), dup.encode()))
     for ri, r in enumerate(pick):
         vs = variants(r["input"], ctxs, imps, lays)
         have = {(label[0], label[2]) for label, _ in vs}
@@ -86,9 +89,9 @@ def _plan(tier, seed):
     by = collections.defaultdict(list)
     for r in recs: by[r["codemod"]].append(r)
     if tier == "quick":
-        per, ctxs, imps, lays = 5, ("module", "def", "nested", "twice", "twice-defs", "closure", "comprehension", "global"), ("plain", "alias", "from", "second-use", "mixed"), ("lf", "crlf", "bom", "exploded", "trailing-comma", "semicolon", "keywords-reversed", "cp1252", "dataflow", "shape-double-star", "formfeed")
+        per, ctxs, imps, lays = 5, ("module", "def", "nested", "twice", "twice-defs", "closure", "comprehension", "global"), ("plain", "alias", "from", "second-use", "mixed"), ("lf", "crlf", "bom", "exploded", "trailing-comma", "semicolon", "keywords-reversed", "cp1252", "dataflow", "shape-double-star", "formfeed", "operator-linebreak", "paren-multiline", "compare-multiline")
     else:
-        per, ctxs, imps, lays = 10**6, ("module", "def", "async", "method", "nested", "prelude", "twice", "twice-defs", "closure", "comprehension", "global"), ("plain", "alias", "from", "second-use", "mixed"), ("lf", "crlf", "nonl", "bom", "tabs", "unicode", "exploded", "exploded-comments", "trailing-comma", "semicolon", "backslash", "formfeed", "keywords-reversed", "hanging", "cp1252", "latin-1", "shift_jis", "dataflow", "shape-double-star", "shape-star-args", "shape-extra-keyword", "shape-keyword-first")
+        per, ctxs, imps, lays = 10**6, ("module", "def", "async", "method", "nested", "prelude", "twice", "twice-defs", "closure", "comprehension", "global"), ("plain", "alias", "from", "second-use", "mixed"), ("lf", "crlf", "nonl", "bom", "tabs", "unicode", "exploded", "exploded-comments", "trailing-comma", "semicolon", "backslash", "formfeed", "keywords-reversed", "hanging", "cp1252", "latin-1", "shift_jis", "dataflow", "shape-double-star", "shape-star-args", "shape-extra-keyword", "shape-keyword-first", "operator-linebreak", "paren-multiline", "compare-multiline")
     jobs = []; args = []; cids = []
     for cid, rs in sorted(by.items()):
         rs = sorted(rs, key=lambda r: hashlib.sha1(r["input"].encode()).hexdigest())
@@ -169,7 +172,8 @@ def sast_jobs(tier, seed):
             data = gen.layout(r["input"], lay)
             args, doc = result_args(r["tool"], r["results"])
             h = hashlib.sha1(data + doc.encode()).hexdigest()[:12]
-            jobs.append({"id": f"{r['codemod']}#{h}", "cid": r["codemod"], "labels": {name: ("module", "plain", lay)}, "files": {name: b64(data)},
+            # (every SAST project has a manifest: the tool-driven variants of the dependency-adding codemods write to it)
+            jobs.append({"id": f"{r['codemod']}#{h}", "cid": r["codemod"], "labels": {name: ("module", "plain", lay), "requirements.txt": ("manifest", "req_lf", "")}, "files": {name: b64(data), "requirements.txt": b64(b"requests\n")},
                          "result_files": {"r.json": doc}, "argv": ["{proj}", "--output", "{out}"] + args + ["--codemod-include", r["codemod"]], "repeat": 2, "monitors": {"snap": False}})
     return jobs
 
